@@ -329,6 +329,9 @@ class NP2Converter:
         :param overwrite:
         :return:
         """
+        if not self.ap_file.exists():
+            _logger.warning(f"{self.ap_file} no longer exists, cannot process")
+            return 0
         if self.np_version == "NP2.4":
             status = self._process_NP24(overwrite=overwrite)
         elif self.np_version == "NP2.1":
